@@ -79,6 +79,10 @@ func newSmcWorld(e *Env, wd bool) *smcWorld {
 	t := e.T
 	w := &smcWorld{e: e, watchdog: wd, advertised: map[appKey]bool{}}
 	w.sc = newSimConn(e, "cli", drawLocalAddr(t, 50000), drawAddr(t, 3868))
+	if t.Chance(1, 5) {
+		w.sc.MaxRead = t.Range(1, 50) // the transport hands over what the peer sent in small pieces
+		e.Probe("client-reads-in-small-pieces")
+	}
 	settings := &sm.Settings{
 		OriginHost:  smcHost,
 		OriginRealm: smcRealm,
